@@ -694,6 +694,12 @@ def rd_post(I, outcome, ctx):
     if tags == ['close']:
         cover(I, 'tls_hello')
         I.oblige('tls_hello_releases_everything', z3.And(z3.Not(has_parser), z3.Not(z3.Select(I.field(self, '_clients').dom, sock.t))))
+        # from C13 ("parsing does not depend on how the stream is cut") and C14 (a well-formed request is never answered by a bare
+        # close): whether bytes are a TLS hello can only be asked of the FIRST bytes of a message, never of a later read of a message
+        # whose parser already exists (else a header byte >= 0x80 right after a read boundary would close the connection)
+        had_parser = z3.Select(z3.Select(pre['_buffers'][0], self.t), sock.t)
+        I.oblige('tls_hello_only_judged_on_the_first_read_of_a_message', z3.Not(had_parser),
+                 detail='the connection was closed as "TLS on a plain port" on a read that continued a message already being parsed')
     if tags == ['request']:
         cover(I, 'request')
         I.oblige('dispatched_request_releases_the_parser', z3.Not(has_parser))
@@ -838,3 +844,12 @@ for _s in _hp.SPECS:
     _c = _copy.copy(_s)
     _c.prop = 'C14'
     SPECS.append(_c)
+
+
+# C13 names HTTP._on_read (the owner of the per-connection parser) among its functions: how the reads of one message are handed to
+# ONE parser, and what is decided before the parser sees them, is part of "parsing is independent of the segmentation"
+for _s in list(SPECS):
+    if getattr(_s, 'name', '') == 'HTTP._on_read' and _s.prop == 'C14':
+        _c = _copy.copy(_s)
+        _c.prop = 'C13'
+        SPECS.append(_c)
